@@ -83,6 +83,7 @@ type Report struct {
 	validated  int
 	warn       map[string]int
 	mismatches []string
+	notes      []string
 	witnesses  []string
 }
 
@@ -189,6 +190,25 @@ func (r *Report) absorb(hr *HarnessResult, outDir string, prog *ssa.Program, sp 
 			}
 		}
 	}
+	// extra validation inputs: witness files named in GOSMT_EXTRA_VALID (comma separated) and the files committed under
+	// /verif/validation/<harness>.*.json are re-executed concretely by the engine and natively, and must agree
+	var extra []string
+	if ev := os.Getenv("GOSMT_EXTRA_VALID"); ev != "" {
+		extra = append(extra, strings.Split(ev, ",")...)
+	}
+	if m, _ := filepath.Glob(filepath.Join(verifDir, "validation", hr.Name+".*.json")); len(m) > 0 {
+		extra = append(extra, m...)
+	}
+	for _, f := range extra {
+		var w Witness
+		if b, err := os.ReadFile(f); err == nil && json.Unmarshal(b, &w) == nil && w.Harness == hr.Name {
+			w.Property, w.Dir = r.cfg.ID, hr.Dir
+			if w.Pretty == nil {
+				w.Pretty = w.Inputs
+			}
+			valid = append(valid, &w)
+		}
+	}
 	// native replay of counterexamples and validation traces in one batch
 	var ws []*Witness
 	for _, p := range todo {
@@ -278,8 +298,6 @@ func (r *Report) absorb(hr *HarnessResult, outDir string, prog *ssa.Program, sp 
 			}
 		}
 		sort.Strings(efails)
-		nf := append([]string{}, out.Fails...)
-		sort.Strings(nf)
 		// a witness taken from an early obligation may violate an assumption made later in the harness: then both
 		// sides must say so (the native run aborts at the assumption, the engine evaluates it to false)
 		eOutside := false
@@ -288,16 +306,36 @@ func (r *Report) absorb(hr *HarnessResult, outDir string, prog *ssa.Program, sp 
 				eOutside = true
 			}
 		}
-		if out.Outside && eOutside {
-			r.validated++
-			continue
+		agree := func(out ReplayOutcome) string {
+			nf := append([]string{}, out.Fails...)
+			sort.Strings(nf)
+			if out.Outside && eOutside {
+				return ""
+			}
+			if strings.Join(efails, "|") != strings.Join(nf, "|") || epanic != (out.Panic != "") || out.Outside != eOutside {
+				return fmt.Sprintf("%s: engine and native run disagree on witness %v: engine fails=%v panic=%v; native fails=%v panic=%q outside=%v", hr.Name, w.Pretty, efails, epanic, nf, out.Panic, out.Outside)
+			}
+			if strings.Join(chr.x.observes, "|") != strings.Join(out.Obs, "|") {
+				return fmt.Sprintf("%s: observed values differ on witness %v: engine %v native %v", hr.Name, w.Pretty, chr.x.observes, out.Obs)
+			}
+			return ""
 		}
-		if strings.Join(efails, "|") != strings.Join(nf, "|") || epanic != (out.Panic != "") || out.Outside != eOutside {
-			r.mismatches = append(r.mismatches, fmt.Sprintf("%s: engine and native run disagree on witness %v: engine fails=%v panic=%v; native fails=%v panic=%q outside=%v", hr.Name, w.Pretty, efails, epanic, nf, out.Panic, out.Outside))
-			continue
+		msg := agree(out)
+		// The engine iterates Go maps in key order, the native run in random order. When the real code's result depends
+		// on the iteration order (it should not, but e.g. victims with equal score and creation time are ordered that
+		// way) a native run can differ from the engine and from the next native run: re-run natively before calling
+		// it a mismatch, and say so in the evidence.
+		for try := 0; msg != "" && try < 3; try++ {
+			again := replayBatch(outDir, hr.Dir, []*Witness{w})
+			if len(again) == 1 && again[0].Err == "" {
+				if m2 := agree(again[0]); m2 == "" {
+					r.notes = append(r.notes, fmt.Sprintf("%s: the native run is not deterministic on witness %v (map iteration order); the engine's result agrees with one of the native runs", hr.Name, w.Pretty))
+					msg = ""
+				}
+			}
 		}
-		if strings.Join(chr.x.observes, "|") != strings.Join(out.Obs, "|") {
-			r.mismatches = append(r.mismatches, fmt.Sprintf("%s: observed values differ on witness %v: engine %v native %v", hr.Name, w.Pretty, chr.x.observes, out.Obs))
+		if msg != "" {
+			r.mismatches = append(r.mismatches, msg)
 			continue
 		}
 		r.validated++
@@ -308,6 +346,9 @@ func (r *Report) finish(all []*HarnessResult, g *genFiles) int {
 	code := 0
 	for _, l := range r.knownHit {
 		fmt.Println(l)
+	}
+	for _, n := range r.notes {
+		fmt.Println("note:", n)
 	}
 	for _, k := range r.knownGone {
 		fmt.Printf("note: known finding %s no longer reproduces (region unsat)\n", k)
@@ -420,6 +461,7 @@ func (r *Report) finish(all []*HarnessResult, g *genFiles) int {
 		"vacuous":                       r.vacuous,
 		"inconclusive":                  r.inconcl,
 		"engine_mismatches":             r.mismatches,
+		"validation_notes":              r.notes,
 		"witnesses":                     r.witnesses,
 		"explanation":                   "bounded symbolic execution of the real functions (go/ssa → SMT-LIB2), one inductive step or product harness per lemma; unsat = holds for all inputs within the bound, sat = concrete counterexample replayed natively",
 		"exhaustive":                    false,
